@@ -13,7 +13,7 @@ pub struct Aes;
 // ------------------------------------------------------------------------------------------
 // independent primitives
 
-fn fnv64(bs: &[u8]) -> u64 {
+pub(super) fn fnv64(bs: &[u8]) -> u64 {
     let mut h: u64 = 0xcbf29ce484222325;
     for b in bs {
         h ^= *b as u64;
@@ -39,7 +39,7 @@ pub(super) fn kdf(pw: &[u8], salt: &[u8], len: usize) -> Vec<u8> {
 }
 
 /// Key stream: block i (i = 1, 2, …) is AES_k(i as 16-byte little-endian integer).
-fn keystream(key: &[u8], nblocks: usize) -> Vec<u8> {
+pub(super) fn keystream(key: &[u8], nblocks: usize) -> Vec<u8> {
     use aes::cipher::{generic_array::GenericArray, BlockEncrypt, KeyInit};
     let mut out = Vec::with_capacity(nblocks * 16);
     for i in 1..=(nblocks as u128) {
@@ -55,7 +55,7 @@ fn keystream(key: &[u8], nblocks: usize) -> Vec<u8> {
     out
 }
 
-fn hmac_sha1(key: &[u8], msg: &[u8]) -> Vec<u8> {
+pub(super) fn hmac_sha1(key: &[u8], msg: &[u8]) -> Vec<u8> {
     use hmac::Mac;
     let mut m = <hmac::Hmac<sha1::Sha1> as Mac>::new_from_slice(key).unwrap();
     m.update(msg);
@@ -924,7 +924,8 @@ impl Stream for Aes {
                         f2.tail_layout = bit % 2 == 0;
                         let reg = region(bits, total, bit / 8);
                         let info = format!("ae{ver}/{bits}/m0/len{len}/flip-{reg}:{bit}");
-                        let exp = if len == 0 { "emptytamper" } else { "tamper" };
+                        // (an empty entry's code is compared as well since the repair of K-I)
+                        let exp = "tamper";
                         let bufs = BUFS[bit % BUFS.len()];
                         g.push(&format!("read.flip.{reg}"), read_line(exp, &info, &f2, bits, f2.csize as u64, Some(&pw), &b.enc.inner, &plain, bufs));
                         if thorough || bit % 2 == 1 {
@@ -1003,8 +1004,8 @@ impl Stream for Aes {
                         f2.tail_layout = true;
                         let info = format!("ae{ver}/{bits}/m{method}/len{len}/cut{cut}of{total}");
                         let bufs = *r.pick(&BUFS);
-                        // an empty entry never reaches the code check: cutting inside its code goes unnoticed
-                        let exp = if len == 0 && cut >= sl + 2 { "emptytamper" } else { "err" };
+                        // (cutting inside the code of an empty entry is an error too since the repair of K-I)
+                        let exp = "err";
                         g.push("read.truncated", read_line(exp, &info, &f2, bits, f2.csize as u64, Some(&pw), &b.enc.inner, &plain, bufs));
                         let api = APIS[1 + (cut + method as usize) % 4];
                         g.push(&format!("read.truncated.api-{api}"), with_api(read_line(exp, &info, &f2, bits, f2.csize as u64, Some(&pw), &b.enc.inner, &plain, bufs), api));
@@ -1034,7 +1035,8 @@ impl Stream for Aes {
             }
         }
 
-        // ---- the size FIELDS are attacker-writable and not covered by the authentication code: shrink the declared
+        // ---- (regression cases of K-I, repaired: an entry without ciphertext has its code verified before end-of-file)
+        // the size FIELDS are attacker-writable and not covered by the authentication code: shrink the declared
         // compressed size of a non-empty entry (to the bare overhead = "no ciphertext", and to a few bytes more) and
         // leave everything else alone. Whatever is then delivered is not the content: it must be a read error.
         for ver in [1u16, 2] {
@@ -1063,7 +1065,7 @@ impl Stream for Aes {
         }
 
         // ---- a wrong password whose 2-byte verifier collides (found once with `aes.findcoll`):
-        // it passes `validate`; a non-empty entry then fails at the code check, an empty one is accepted
+        // it passes `validate` and then fails at the code check (an empty entry as well since the repair of K-I)
         for ver in [1u16, 2] {
             for len in [0usize, 1, 10, 40] {
                 let mut r = next_rng();
@@ -1073,9 +1075,9 @@ impl Stream for Aes {
                 let plain = mk_plain(&mut r, len);
                 let b = build_case(ver, 128, 0, &pw, &plain, &salt, len % 2 == 0, false);
                 let info = format!("ae{ver}/128/m0/len{len}/verifier-collision");
-                let exp = if len == 0 { "emptycollision" } else { "wrongpw" };
+                let exp = "wrongpw";
                 g.push("read.verifier-collision", read_line(exp, &info, &b.f, 128, b.f.csize as u64, Some(&wrong), &b.enc.inner, &plain, "7"));
-                g.push("layer.verifier-collision", layer_line(if len == 0 { "emptycollision" } else { "err" }, &info, 128, b.f.csize as u64, &b.f.body, &wrong, &b.enc.inner, "7", "2"));
+                g.push("layer.verifier-collision", layer_line("err", &info, 128, b.f.csize as u64, &b.f.body, &wrong, &b.enc.inner, "7", "2"));
             }
         }
 
@@ -1371,26 +1373,9 @@ impl Stream for Aes {
                     "pwreq" => if !resp.ends_with("file=err passwordrequired") { fail("no password did not yield the password-required error".into()); },
                     "wrongpw" => if is_ok { fail("a wrong password was accepted and data returned".into()); },
                     "tamper" => if is_ok {
-                        // ONE way to get here is a known finding (K-I): the declared compressed size is the bare overhead, so
-                        // the reader takes the entry for empty and reports end-of-file at once - nothing decrypted, the code
-                        // never compared - although the entry (declared uncompressed size > 0) had content
-                        let extra = get_hex(&a, "extra").unwrap_or_default();
-                        let mut overhead = None;
-                        let mut o = 0usize;
-                        while o + 4 <= extra.len() {
-                            let l = u16::from_le_bytes([extra[o + 2], extra[o + 3]]) as usize;
-                            if extra[o] == 0x01 && extra[o + 1] == 0x99 && o + 11 <= extra.len() {
-                                overhead = match extra[o + 8] { 1 => Some(20u64), 2 => Some(24), 3 => Some(28), _ => None };
-                                break;
-                            }
-                            o += 4 + l;
-                        }
-                        let declared_empty = overhead.is_some() && get_u64(&a, "csize") == overhead;
-                        if declared_empty && resp.contains("read=ok len=0 ") && get_u64(&a, "usize").unwrap_or(0) > 0 {
-                            fail("K-I aes-declared-empty-unauthenticated: a non-empty entry whose declared compressed size was reduced to the bare overhead reads as a successful EMPTY entry; the authentication code is never compared (AesReaderValid::read returns Ok(0) at data_remaining == 0 before anything is verified), and under AE-2 there is no CRC behind it".into());
-                        } else {
-                            fail("a modified non-empty entry was read to end-of-file without an error".into());
-                        }
+                        // includes the former K-I (declared compressed size reduced to the bare overhead: the entry read as
+                        // a successful EMPTY one, code never compared) - repaired, so it is a violation like any other
+                        fail("a modified non-empty entry was read to end-of-file without an error".into());
                     },
                     "emptytamper" => if is_ok && !resp.contains("read=ok len=0 ") { fail("empty entry returned data".into()); },
                     "crcerr" => if !resp.contains("read=err io:other") { fail("AE-1 entry with a wrong CRC was not rejected with the checksum error".into()); },
